@@ -212,10 +212,13 @@ func NewWorld() *World {
 		seqOf: map[Sort]Sort{}, elemOf: map[Sort]Sort{}, mapKV: map[Sort][2]Sort{},
 		structs: map[Sort][]structField{}, tags: map[string]int{},
 	}
-	w.AddDef("core", []string{"Ref", "null", "dyn", "fnid"}, `(declare-sort Ref 0)
+	w.AddDef("core", []string{"Ref", "null", "dyn", "fnid", "Fuel", "FZ", "FS"}, `(declare-sort Ref 0)
 (declare-fun null () Ref)
 (declare-fun dyn (Ref) Int)
 (assert (= (dyn null) 0))
+(declare-sort Fuel 0)
+(declare-fun FZ () Fuel)
+(declare-fun FS (Fuel) Fuel)
 `)
 	w.always = append(w.always, "core")
 	return w
@@ -579,7 +582,7 @@ func (w *World) Render(consts map[string]Sort, assumptions []Term, goal Term, ex
 	ds := w.topoOrder(need)
 	var sb strings.Builder
 	for _, d := range ds {
-		sb.WriteString("; --- " + d.Name + "\n")
+		sb.WriteString("; --- " + strings.ReplaceAll(fmt.Sprintf("%q", d.Name), "\n", " ") + "\n")
 		sb.WriteString(d.Text)
 		if !strings.HasSuffix(d.Text, "\n") {
 			sb.WriteString("\n")
